@@ -103,6 +103,11 @@ def run(prog, rep):
                     elif fdst != "open":
                         P.append(("C07.3", "fd:invalid", "close of a descriptor that is not open", line(c), flow.witness_lines(*flow.cur)))
                     fdst = "closed"
+            elif cn == cl.name:
+                # unwinding on a failure exit: a segment this call created must be removed again
+                if role == "creator" and guards.lookup(facts, "%s->shm_created" % sp) != 1:
+                    P.append(("C07.2", "owner:late", "a failure exit after the exclusive create unwinds with shm_created not yet set: the freshly created name stays in the system "
+                              "and nobody owns it (later creators find a zero-sized segment)", line(c), flow.witness_lines(*flow.cur)))
             elif cn == "p_semaphore_new":
                 seen["sem_open"] += 1
                 if guards.key(c["args"][0]) != KEY:
